@@ -72,6 +72,7 @@ class Interp(OpsMixin, BuiltinsMixin, StdlibMixin):
         self.no_decide = 0
         self.unknown_decorators = []
         self.memo_store = {}
+        self.memo_args = {}
         self.visited = set()
         self.loop_stack = []
         self.try_stack = []
@@ -183,6 +184,7 @@ class Interp(OpsMixin, BuiltinsMixin, StdlibMixin):
         self.try_stack = []
         self.cursors = {}
         self.memo_store = {}
+        self.memo_args = {}
 
     def rollback(self):
         for kind, obj, key, old in reversed(self.journal):
@@ -1276,12 +1278,17 @@ class Interp(OpsMixin, BuiltinsMixin, StdlibMixin):
             if mk in self.memo_store:
                 self.event("memo-hit", func=f.qualname, where=frame.where(node) if frame else None)
                 return self.memo_store[mk]
+            mk_eq = self.memo_find_equal(f, mk, locs, node, frame)
+            if mk_eq is not None:
+                self.event("memo-hit", func=f.qualname, where=frame.where(node) if frame else None)
+                return self.memo_store[mk_eq]
             f2 = FuncVal(f.name, f.node, f.module, kind=f.kind, cls=f.cls, closure=f.closure)
             f2.qualname = f.qualname
             f2.defaults, f2.kw_defaults, f2.memo = f.defaults, f.kw_defaults, False
             f2.other_decorators = []
             r = self.call_function(f2, args_orig, kwargs_orig, node, frame)
             self.memo_store[mk] = r
+            self.memo_args[mk] = dict(locs)
             # a cached value every caller shares is state only if it can change: numbers, strings and tuples of them cannot
             self.event("memo-store" if not self.is_immutable_value(r) else "memo-store-immutable", func=f.qualname,
                        where=frame.where(node) if frame else None, node=f.node)
@@ -1331,6 +1338,33 @@ class Interp(OpsMixin, BuiltinsMixin, StdlibMixin):
                 return all(self.is_immutable_value(x, _depth + 1) for k, x in cl.locals.items() if k in free and x is not v)
             return True
         return False
+
+    def memo_hashed_by_class(self, v):
+        """an object whose class defines both __eq__ and __hash__: functools caches find it by those, not by identity"""
+        if isinstance(v, Instance) and isinstance(v.cls, ClassVal):
+            return isinstance(v.cls.lookup("__eq__")[0], FuncVal) and isinstance(v.cls.lookup("__hash__")[0], FuncVal)
+        return False
+
+    def memo_find_equal(self, f, mk, locs, node, frame):
+        """a stored call of the memoised function whose arguments are *equal* to these as the arguments' classes define equality"""
+        if not any(self.memo_hashed_by_class(v) for v in locs.values()):
+            return None
+        for mk2, locs2 in list(getattr(self, "memo_args", {}).items()):
+            if mk2[0] != f.qualname or mk2 not in self.memo_store or set(locs2) != set(locs):
+                continue
+            same = True
+            for k, v in locs.items():
+                w = locs2[k]
+                if self.memo_hashed_by_class(v) or self.memo_hashed_by_class(w):
+                    if not self.truth(self.compare(ast.Eq(), w, v, node, frame), node, frame):
+                        same = False
+                        break
+                elif self.memo_key(v) != self.memo_key(w):
+                    same = False
+                    break
+            if same:
+                return mk2
+        return None
 
     def memo_key(self, v):
         v = norm_int(v)
